@@ -288,7 +288,7 @@ def run(ctx):
             raise dmh.tlcmod.MachineryError("margin: observed error %g for %s is within 1e3 of the tolerance" % (worst[k], k))
     if not ctx.violations and not stats.get("min_real_frequency", 0.0) < -1.0:
         raise dmh.tlcmod.MachineryError("vacuity: no imaginary (negative) frequency was exercised")
-    if stats["short_range"] == 0 or stats["series_differ"] == 0:
+    if not ctx.violations and (stats["short_range"] == 0 or stats["series_differ"] == 0):
         raise dmh.tlcmod.MachineryError("vacuity: need both short-range cases and cases whose series differ: %s" % stats)
 
 
